@@ -52,8 +52,12 @@ def sliceRange (start end_ resolution size : Int) : Option (List TR) :=
     some (trimEnds (first ++ sliceLoop fuel rstart end_ size))
 
 /-- the slice plan of `RangeQuery`: 2h rounded to the step, a single slice when that exceeds the lookback -/
-def plan (start end_ lookback step : Int) : Option (List TR) :=
+def sliceSize (step : Int) : Int :=
   let q := roundDur 7200 step
+  if q < step then step else q
+
+def plan (start end_ lookback step : Int) : Option (List TR) :=
+  let q := sliceSize step
   if q > lookback then some [⟨start, end_⟩] else sliceRange start end_ step q
 
 structure MTR where
